@@ -258,6 +258,10 @@ class HillClimbAllocator:
             if not max_lr.is_neighbour(lr):
                 non_nb_turn_list.append(turn)
         assert turn_list
+        if len(turn_list) < 2:
+            # Only the bottleneck itself was found, which happens when the previous allocation was abandoned
+            # half-way and left stale turns behind: there is nothing to swap
+            return
         # Pick from non-neighbour list with 30% probability
         # (magic number based on tuning)
         if random.randint(0, 100) < 30 and non_nb_turn_list:
